@@ -195,7 +195,11 @@ def gen_names(rng, small):
 
 
 def gen_strategy(rng):
-    kind = rng.choice(["random", "random", "pb", "pb", "pct", "crit"])
+    kind = rng.choice(["random", "random", "pb", "pbx", "pbx", "pbx", "pct",
+                       "crit"])
+    if kind == "pbx":
+        # pre-emption points drawn over the measured length of the run
+        return dict(kind="pbx", k=rng.choice([1, 1, 2, 3]))
     if kind == "crit":
         return dict(kind="crit", k=rng.choice([1, 2, 3]),
                     q=rng.choice([0.05, 0.15, 0.4]),
@@ -211,8 +215,13 @@ def gen_strategy(rng):
 
 def generate(cls, rng):
     from dsim import depth as DP
-    knobs = dict(off_size=rng.choice([8, 8, 1, 2, 3]),
-                 str_size=rng.choice([8, 8, 1, 2]),
+    knobs = dict(off_size=rng.choice([8, 8, 1, 2, 3, 0]),
+                 str_size=rng.choice([8, 8, 1, 2, 0]),
+                 # strong-cache size of gettz, set through its public
+                 # set_cache_size() before the run starts: with a small one
+                 # the weak index is the only thing between a request and a
+                 # zone whose last reference another thread is dropping
+                 gettz_size=rng.choice([8, 8, 8, 0, 1, 2]),
                  tz=rng.choice(TZ_SETTINGS),
                  bundle=rng.random() < 0.8)
     if cls in ("threads", "deep"):
@@ -356,6 +365,9 @@ class Sim(object):
                        self.off_size)
         self._set_knob(tz.tzstr, "_TzStrFactory__strong_cache_size",
                        self.str_size)
+        if kn.get("gettz_size", 8) != 8:
+            tz.gettz.set_cache_size(kn["gettz_size"])
+            self.gettz_size = kn["gettz_size"]
         self.world.set_tz(kn.get("tz"))
         self.tzenv = kn.get("tz")
         if not kn.get("bundle", True):
@@ -1121,7 +1133,8 @@ def finish(sim, ctx, actor):
 
 def simplify(cls, scenario):
     kn = scenario.get("knobs", {})
-    for k, v in (("off_size", 8), ("str_size", 8), ("tz", None)):
+    for k, v in (("off_size", 8), ("str_size", 8), ("gettz_size", 8),
+                 ("tz", None)):
         if kn.get(k) != v:
             c = _copy.deepcopy(scenario)
             c["knobs"][k] = v
